@@ -180,19 +180,13 @@ theorem all_roles_on_paths (r : Role) : ∃ p ∈ paths, stepsFor p.1 r ≠ [] :
   obtain ⟨p, hp, hne⟩ := h2
   exact ⟨p, hp, hne⟩
 
-/-! ## Non-vacuity: concrete configurations, chains and sites meeting the hypotheses -/
-
-/-- only points and anchors customised -/
-def cfgA : Cfg := fun r => if r = .point then some 3 else if r = .anchor then some 8 else none
-
-/-- everything customised -/
-def cfgAll : Cfg := fun _ => some 1
+/-! ## Non-vacuity: concrete configurations, chains and sites meeting the hypotheses
+(`cfgA`: only points (class 3) and anchors (class 8) customised; `cfgAll`: everything, class 1) -/
 
 /-- a contour reversed twice, reached from the font through five constructors and two `self.__class__`
 calls, still makes points of the registered point class … -/
-example : (reachIds W cfgA (toContour ++ ["Contour.reverse", "Contour.reverse"])).bind
-      (fun o => (W.site "Contour.addPoint").bind (classAt W o)) = some (.user 3 "Point") := by
-  decide +kernel
+example : classVia W cfgA (toContour ++ ["Contour.reverse", "Contour.reverse"]) "Contour.addPoint"
+    = some (.user 3 "Point") := by decide +kernel
 
 /-- … while the scratch contour itself is of defcon's own class, as contours are not customised in `cfgA` -/
 example : (reachIds W cfgA (toContour ++ ["Contour.reverse"])).map (·.self) = some (.builtin "Contour") := by
@@ -228,38 +222,28 @@ example : ∃ chain o s, (∀ x ∈ chain, x ∈ W.sites) ∧ reach W cfgA chain
 example : paths.map (·.1) = ["load", "create", "insertGlyph", "dictAppend", "factory", "penDraw", "reverse",
     "pointInsertion", "decompose", "reload", "deserialize"] := by decide
 
-/-! ## The certificate discriminates: wirings with a seeded fault are rejected, with a witness -/
-
-def mapSite (w : Wiring) (id : String) (f : Site → Site) : Wiring :=
-  { w with sites := w.sites.map fun s => if s.id = id then f s else s }
+/-! ## The certificate discriminates: wirings with a seeded fault are rejected, and the model exhibits
+the wrong class -/
 
 /-- `anchor = Anchor(glyph=self, anchorDict=anchorDict)` in `Glyph.instantiateAnchor` -/
-def hardcodedAnchor : Wiring := mapSite W "Glyph.instantiateAnchor" fun s => { s with cls := .hard "Anchor" }
+example : rejects (mapSite W "Glyph.instantiateAnchor" (hardcode "Anchor")) = true := by decide +kernel
 
 /-- `anchorClass=self._guidelineClass` in `Layer.instantiateGlyphObject` -/
-def swappedKeyword : Wiring := mapSite W "Layer.instantiateGlyphObject" fun s =>
-  { s with kwargs := s.kwargs.map fun kv => if kv.1 = "anchorClass" then (kv.1, .slot "_guidelineClass") else kv }
+example : rejects (mapSite W "Layer.instantiateGlyphObject" (rewireKw "anchorClass" (.slot "_guidelineClass"))) = true := by
+  decide +kernel
 
-/-- `LayerSet.instantiateLayer` forgets to pass `glyphPointClass` on -/
-def droppedKeyword : Wiring := mapSite W "LayerSet.instantiateLayer" fun s =>
-  { s with kwargs := s.kwargs.filter fun kv => kv.1 ≠ "glyphPointClass" }
+/-- `LayerSet.instantiateLayer` forgets to pass `glyphPointClass` on: rejected, and points of a font with a
+customised point class are plain `Point`s -/
+example : rejects (mapSite W "LayerSet.instantiateLayer" (dropKw "glyphPointClass")) = true ∧
+    classVia (mapSite W "LayerSet.instantiateLayer" (dropKw "glyphPointClass")) cfgA toContour "Contour.addPoint"
+      = some (.builtin "Point") := by decide +kernel
 
-/-- `Contour.reverse` builds its scratch contour without `pointClass=self.pointClass` -/
-def reverseForgetsPointClass : Wiring := mapSite W "Contour.reverse" fun s => { s with kwargs := [] }
-
-example : check hardcodedAnchor (canonObjs hardcodedAnchor) = false := by decide +kernel
-example : check swappedKeyword (canonObjs swappedKeyword) = false := by decide +kernel
-example : check droppedKeyword (canonObjs droppedKeyword) = false := by decide +kernel
-example : check reverseForgetsPointClass (canonObjs reverseForgetsPointClass) = false := by decide +kernel
-
-/-- and the model exhibits the wrong class: with the dropped keyword, points of a customised font are
-plain `Point`s; after one reversal with the forgetful `reverse`, too -/
-example : (reachIds droppedKeyword cfgA toContour).bind
-      (fun o => (droppedKeyword.site "Contour.addPoint").bind (classAt droppedKeyword o))
-    = some (.builtin "Point") := by decide +kernel
-
-example : (reachIds reverseForgetsPointClass cfgA (toContour ++ ["Contour.reverse"])).bind
-      (fun o => (reverseForgetsPointClass.site "Contour.addPoint").bind (classAt reverseForgetsPointClass o))
-    = some (.builtin "Point") := by decide +kernel
+/-- `Contour.reverse` builds its scratch contour without `pointClass=self.pointClass`: rejected, and after
+one reversal the points are plain `Point`s although before it they were of the registered class -/
+example : rejects (mapSite W "Contour.reverse" (dropKw "pointClass")) = true ∧
+    classVia (mapSite W "Contour.reverse" (dropKw "pointClass")) cfgA toContour "Contour.addPoint"
+      = some (.user 3 "Point") ∧
+    classVia (mapSite W "Contour.reverse" (dropKw "pointClass")) cfgA (toContour ++ ["Contour.reverse"]) "Contour.addPoint"
+      = some (.builtin "Point") := by decide +kernel
 
 end DefconModel.Props.C15
